@@ -139,6 +139,71 @@ def rule_id_cache(ctx):
                     ))
     if not live:
         raise AnalysisError("no id()-keyed cache is consulted with state-derived keys any more (rule needs re-pointing)")
+    # the objects used as id() keys must be *retained* somewhere for as long as the cache entry lives: an entry of
+    # self.terms, the stored result of another cache of the class, or the caller's own argument.  A freshly computed
+    # temporary is freed when the call returns and CPython reuses its address: the next temporary hits the stale entry.
+    def retained(c, f, e, depth=0):
+        """'yes' / 'no: <why>' for the object denoted by expression e inside method f of class c."""
+        if depth > 5:
+            return "no: provenance too deep"
+        if isinstance(e, ast.Subscript) and isinstance(e.value, ast.Attribute) and e.value.attr == "terms":
+            return "yes"
+        if isinstance(e, ast.Subscript) and isinstance(e.value, ast.Name):
+            return retained(c, f, e.value, depth + 1) if False else "yes" if e.value.id in ("cache",) else retained(c, f, e.value, depth + 1)
+        if isinstance(e, ast.Name):
+            if e.id in f.params:
+                return "yes"  # the caller's object (checked at the call sites of f inside the class)
+            defs = [a.value for a in ast.walk(f.node) if isinstance(a, ast.Assign) and any(isinstance(t, ast.Name) and t.id == e.id for t in a.targets)]
+            loops = [a.iter for a in ast.walk(f.node) if isinstance(a, (ast.For, ast.comprehension)) and any(isinstance(t, ast.Name) and t.id == e.id for t in ast.walk(a.target))]
+            if not defs and loops:
+                return "yes" if all("terms" in src_of(it) for it in loops) else f"no: `{e.id}` iterates `{src_of(loops[0])[:30]}`"
+            if not defs:
+                return f"no: `{e.id}` has no definition"
+            res = [retained(c, f, d, depth + 1) for d in defs]
+            bad = [x for x in res if x != "yes"]
+            return bad[0] if bad else "yes"
+        if isinstance(e, ast.Call) and isinstance(e.func, ast.Attribute) and isinstance(e.func.value, ast.Name) and e.func.value.id == "self":
+            name = e.func.attr
+            if name in caches:
+                return "yes"  # stored in that cache
+            g = c.find(name)
+            if g is None or g.is_alias:
+                return f"no: self.{name}(...) not resolved"
+            rets = [x.value for x in ast.walk(g.node) if isinstance(x, ast.Return) and x.value is not None]
+            if not rets:
+                return f"no: self.{name}(...) returns nothing"
+            res = [retained(c, g, x, depth + 1) for x in rets]
+            bad = [x for x in res if x != "yes"]
+            return bad[0] if bad else "yes"
+        if isinstance(e, ast.IfExp):
+            res = [retained(c, f, e.body, depth + 1), retained(c, f, e.orelse, depth + 1)]
+            bad = [x for x in res if x != "yes"]
+            return bad[0] if bad else "yes"
+        return f"no: `{src_of(e)[:40]}` is a freshly computed object"
+
+    nkeys = 0
+    for c in classes:
+        for name, f in c.methods.items():
+            if f.is_alias or f.cls is not c or isinstance(f.node, ast.Lambda) or name == "__init__":
+                continue
+            for n in ast.walk(f.node):
+                if isinstance(n, ast.Call) and isinstance(n.func, ast.Attribute) and n.func.attr in caches and isinstance(n.func.value, ast.Name) and n.func.value.id == "self":
+                    callee = c.find(n.func.attr)
+                    pos = [p_ for p_ in callee.posparams if p_ != "self"]
+                    for k, a in enumerate(n.args):
+                        if k < len(pos) and pos[k] in caches[n.func.attr][1]:
+                            nkeys += 1
+                            verdict = retained(c, f, a)
+                            construct = f"{c.name}.{name}->{n.func.attr}[{pos[k]}]"
+                            if verdict == "yes":
+                                r.ok(construct, sample={"caller": f"{c.name}.{name}", "cache": n.func.attr, "key object": src_of(a)[:40], "retained": True}, nontrivial=(name not in caches))
+                            else:
+                                r.bad(Finding(
+                                    "id-cache-coherence", f"{c.name}.{name}",
+                                    f"`{src_of(n)[:60]}` keys the cache `{n.func.attr}` by id() of an object that nothing retains ({verdict[4:]}): once it is freed its "
+                                    "address is reused and a later, different object is served the stale entry",
+                                    where=f"{f.module.relpath}:{n.lineno}", operand=f"{n.func.attr}:temporary"))
+    r.floor(nkeys, 2, "id()-keyed cache consultations outside __init__")
     return r
 
 
@@ -391,6 +456,14 @@ def rule_time_bookkeeping(ctx):
     sweeps = [n for n in ast.walk(step.node) if isinstance(n, ast.Call) and src_of(n.func) == "self.sweep"]
     if not sweeps:
         raise AnalysisError("TEBD.step no longer calls self.sweep")
+    # every call of step reaches the sweeps: update_to relies on its final step(queue=False) to drain a pending sweep, so
+    # a step that can return early (whatever the reason) leaves the state one queued sweep behind the reported time
+    early = [n for n in ast.walk(step.node) if isinstance(n, ast.Return) and n.lineno < min(c.lineno for c in sweeps)]
+    if early:
+        r.bad(Finding("time-bookkeeping", "TEBD.step", f"can return at line {early[0].lineno} before any sweep is performed: a sweep queued by the previous step is then never applied "
+                      "although update_to reports the target time", where=f"{step.module.relpath}:{early[0].lineno}", operand="early-return"))
+    else:
+        r.ok("TEBD.step[always sweeps]", nontrivial=False)
     ok = True
     for c in sweeps:
         kws = {k.arg: src_of(k.value) for k in c.keywords if k.arg}
